@@ -385,7 +385,7 @@ func checkC11(c *Check) {
 	if pk := p.Pkg("container"); pk != nil {
 		n := 0
 		for _, fn := range p.PkgFuncs("container") {
-			if fn.Signature.Recv() == nil || !strings.HasSuffix(fn.Signature.Recv().Type().String(), "container.container") {
+			if !operatesOn(fn, "container.container") {
 				continue
 			}
 			if fn.Name() == "recvLoop" {
@@ -405,7 +405,7 @@ func checkC11(c *Check) {
 	// Reset, Delete) return success for an environment that was destroyed under them.
 	for _, side := range []string{"container", "containerServer"} {
 		for _, fn := range p.PkgFuncs("container") {
-			if fn.Signature.Recv() == nil || !strings.HasSuffix(fn.Signature.Recv().Type().String(), "container."+side) || fn.Parent() != nil {
+			if !operatesOn(fn, "container."+side) {
 				continue
 			}
 			closes := false
